@@ -565,6 +565,8 @@ Proof.
     destruct (ss_segs (v_segs (set_rto_retransmissions s1 0))); [destruct (our_fin_if_unacked _)|];
       unfold jt_frame; vsimpl; repeat split. }
   pose proof (joint_frame _ _ _ Hj1 H2) as Hj2. clearbody s2.
+  assert (Hb : jt_frame s2 (acked_counts_as_sent s2)).
+  { unfold acked_counts_as_sent. destruct (seq_gt _ _); unfold jt_frame; vsimpl; repeat split. }
   assert (Hfin : forall s3 : vsock, joint_rel 0 s3 ->
     match (match rv_phase (v_recovery s3) with
            | Recovering rc =>
@@ -588,15 +590,18 @@ Proof.
     destruct (calc_pipe_fields _ _ _ _ _ _ _ _ Ec) as (A & B).
     unfold joint_rel, set_recovering. vsimpl. rewrite A, B.
     split; [eapply calc_pipe_inv; eauto|auto]. }
-  destruct Hj2 as (I2 & J2 & B2).
   destruct (Z.ltb_spec 0 (ar_acked_segments r)) as [Hpos|Hneg].
-  - assert (Hle : ar_acked_bytes r <= Z.of_nat (length (ring (v_tx s2)))).
+  - pose proof (joint_frame _ _ _ Hj2 Hb) as Hj2b. clear Hj2 Hb. revert Hj2b.
+    generalize (acked_counts_as_sent s2). clear s2 H2. intros s2 Hj2.
+    destruct Hj2 as (I2 & J2 & B2).
+    assert (Hle : ar_acked_bytes r <= Z.of_nat (length (ring (v_tx s2)))).
     { destruct I2 as (L1 & L2 & L3 & _). pose proof (tiled_sizes_nonneg _ _ L3). lia. }
     unfold truncate_front. cbv zeta. rewrite (Z.min_l _ _ Hle), Z.eqb_refl.
     unfold wake_writer. cbn [sbind]. apply Hfin.
     unfold joint_rel, add_wakes. vsimpl. cbn [upd ring g_removed].
     split; [exact I2|]. rewrite skipn_length. split; lia.
-  - cbn [sbind]. apply Hfin. unfold joint_rel. split; [exact I2|]. split; lia.
+  - destruct Hj2 as (I2 & J2 & B2).
+    cbn [sbind]. apply Hfin. unfold joint_rel. split; [exact I2|]. split; lia.
 Qed.
 
 End Joint.
